@@ -84,6 +84,39 @@ def run(ctx):
                 elif len(ctx.samples) < 4:
                     ctx.sample({"cfg": {k: cfg[k] for k in ('kind', 'ns', 'N')}, "resumed_from_iteration": p["iteration"], "route": route,
                                 "iterations": len(r.history.beta), "identical": True})
+    # ---- fault injection on callback runs: the caller keeps the dictionary it was handed (not a serialised copy); after the run
+    #      went on and failed, that object must still BE the checkpoint, and resuming from it must reproduce the reference
+    nlive = 0
+    live_runs = [r for r in runs if r.error is None and any(p["bytes"] is not None for p in r.payloads)][: ctx.scale(5, 30)]
+    for r in live_runs:
+        cfg = r.cfg
+        total = r.target.ncalls
+        if total < 6:
+            continue
+        for k in sorted(set([total // 2, total - 2] + [ctx.rng.randrange(3, total - 1) for _ in range(ctx.scale(2, 12))])):
+            bad = sr.do_run(cfg, fail_at=k)
+            if bad.error is None or not bad.payloads:
+                continue
+            last = bad.payloads[-1]
+            nlive += 1
+            ctx.count((cfg["seed"], "live", k), True, kind="fault/live-dict")
+            rep = {"cfg": cfg, "fault_at_user_call": k, "route": "live-dict", "checkpoint_iteration": last["iteration"]}
+            stale = [p["iteration"] for p in bad.payloads if pickle.dumps(p["live"]) != p["bytes"]]
+            if stale:
+                snap, live = pickle.loads(last["bytes"]), last["live"]
+                ctx.violation("payload-changed-after-emission",
+                              f"the dictionary handed to the checkpoint callback at iteration(s) {stale[:4]} changed while the run went on "
+                              f"(history.beta had {len(snap['history'].beta)} entries when emitted, {len(live['history'].beta)} at the fault)", rep)
+            r2 = sr.do_run(cfg, resume_from=last["live"], vid0=10000)
+            if r2.error is not None:
+                ctx.violation(f"resume-raises:live-dict:{r2.error[0]}", f"resume from the kept dictionary after a fault at call {k} raised {r2.error[:2]}", rep)
+                continue
+            diffs = sr.same_outcome(r, r2)
+            if diffs:
+                rep["differences"] = diffs
+                ctx.violation(f"resume-differs:live-dict:{diffs[0].split(':')[0].split(' (')[0]}",
+                              f"run interrupted at user-call {k} and resumed from the dictionary kept by the callback != uninterrupted: {diffs[:3]}", rep)
+    ctx.extra["live_dict_resumptions"] = nlive
     # ---- fault injection: exception at user-call k, resume from the last payload / file / resume_from_file
     nfault = 0
     fcfgs = [c for c in cfgs if c["kind"] == "minipcn_smc" and "beta_tolerance" not in c["sample_kwargs"]][: ctx.scale(3, 12)]
